@@ -87,7 +87,7 @@ type verifMR struct {
 	genPanic bool
 	ctxMode int // 0 live, 1 done before the call, 2 cancelled by the mapper of item 0
 	ctxCancel func()
-	ctxAt   int64 // stamp at which the context was cancelled (mode 2)
+	ctxAt   int64 // stamp at which the cancellation of the context had returned (mode 2)
 
 	mapped     [3]int
 	foreign    bool // the mapper saw something that was not generated
@@ -108,10 +108,14 @@ type verifMR struct {
 
 func (e *verifMR) tick() int64 { e.stamp++; return e.stamp }
 
+var verifDigit = [4]string{"0", "1", "2", "3"}
+
+
 // f is the value the mapper writes as k-th output of item id.
 func (e *verifMR) f(id, k int) int { return e.vals[id] + 1 + k }
 
 func (e *verifMR) raise(v error) {
+	verifTrace("panic raised: " + v.Error())
 	e.mu.Lock()
 	e.raised = append(e.raised, v)
 	e.mu.Unlock()
@@ -123,7 +127,9 @@ func (e *verifMR) doCancel(cancel func(error), err error) {
 	s := &verifSpan{err: err, start: e.tick()}
 	e.cancels = append(e.cancels, s)
 	e.mu.Unlock()
+	verifTrace("cancel called")
 	cancel(err)
+	verifTrace("cancel returned")
 	e.mu.Lock()
 	s.end = e.tick()
 	e.mu.Unlock()
@@ -161,17 +167,22 @@ func (e *verifMR) mapper(item any, w Writer, cancel func(error)) {
 	}
 	e.intact = verifAnd(e.intact, it.val == e.vals[it.id])
 	e.mu.Unlock()
+	verifTrace("mapper starts: item " + verifDigit[it.id])
 	defer func() {
 		e.mu.Lock()
 		e.running--
 		e.mu.Unlock()
+		verifTrace("mapper ends: item " + verifDigit[it.id])
 	}()
-	verifYield() // mappers of other items may start meanwhile
+	if verifParam("yield") == 1 {
+		verifYield() // default schedule: mappers of other items may start meanwhile
+	}
 	if e.ctxMode == 2 && it.id == 0 {
-		e.mu.Lock()
-		e.ctxAt = e.tick()
-		e.mu.Unlock()
+		verifTrace("context is being cancelled")
 		e.ctxCancel()
+		e.mu.Lock()
+		e.ctxAt = e.tick() // from here on the context is done for certain
+		e.mu.Unlock()
 	}
 	switch e.mbeh[it.id] {
 	case verifMW1:
@@ -203,6 +214,7 @@ func (e *verifMR) take(v any) {
 		e.foreign = true
 		return
 	}
+	verifTrace("reducer receives a value of item " + verifDigit[o.id])
 	e.recv[o.id][o.k]++
 	e.intact = verifAnd(e.intact, o.val == e.f(o.id, o.k))
 	e.sum += o.val
@@ -217,7 +229,9 @@ func (e *verifMR) rwrite(w Writer, v int) {
 	e.rwrites = append(e.rwrites, s)
 	e.rvals = append(e.rvals, v)
 	e.mu.Unlock()
+	verifTrace("reducer writes")
 	w.Write(v)
+	verifTrace("reducer's write returned")
 	e.mu.Lock()
 	s.end = e.tick()
 	e.mu.Unlock()
@@ -280,18 +294,25 @@ func verifSettle(cond func() bool) {
 
 // configure draws the run's behaviours and returns their fault kind; -1 = the
 // combination is a duplicate of another one or outside the statement.
-func (e *verifMR) configure(api, maxN int) int {
-	e.n = verifChoose("n", maxN+1)
+func (e *verifMR) configure(api, ctxMode, rbeh int) int {
+	minN := verifParam("minN")
+	e.n = minN + verifChoose("n", verifParam("maxN")-minN+1)
 	e.intact = true
 	for i := 0; i < e.n; i++ {
 		e.vals[i] = verifInt("item")
 		e.mbeh[i] = verifChoose("mapper", verifMKinds)
 	}
-	e.rbeh = verifChoose("reducer", verifRKinds)
+	e.rbeh = rbeh
+	if rbeh < 0 {
+		e.rbeh = verifChoose("reducer", verifRKinds)
+	}
 	if api != verifAPIChan {
 		e.genPanic = verifChoose("generator", 2) == 1
 	}
-	e.ctxMode = verifChoose("ctx", 3)
+	e.ctxMode = ctxMode
+	if ctxMode < 0 {
+		e.ctxMode = verifChoose("ctx", 3)
+	}
 	if e.ctxMode == 2 && e.n == 0 {
 		return -1
 	}
@@ -340,9 +361,9 @@ func (e *verifMR) call(api int, ctx context.Context) (any, error) {
 }
 
 // run performs one call and checks the statement.
-func verifMRRun(api, workers int, mixed bool, maxN int) {
+func verifMRRun(api, workers int, mixed bool, ctxMode, rbeh int) {
 	e := &verifMR{workers: workers}
-	kind := e.configure(api, maxN)
+	kind := e.configure(api, ctxMode, rbeh)
 	if kind < 0 || mixed != (kind == verifKMixed) {
 		return
 	}
@@ -357,6 +378,7 @@ func verifMRRun(api, workers int, mixed bool, maxN int) {
 	var out verifOutcome
 	go func() {
 		out.pv, out.panicked = verifExpectPanic(func() { out.val, out.err = e.call(api, ctx) })
+		verifTrace("the call returned")
 		e.mu.Lock()
 		e.returned = true
 		e.mu.Unlock()
@@ -378,6 +400,7 @@ func verifMRRun(api, workers int, mixed bool, maxN int) {
 		return
 	}
 	// ... and once the generator has returned nothing started by the call is left running.
+	verifAssert(e.genReturned, "the generator goroutine started by the call is not left blocked on the source")
 	if e.genReturned {
 		verifAssert(runtime.NumGoroutine() <= base, "no goroutine started by the call is left running once the generator has returned")
 	}
@@ -488,7 +511,7 @@ func verifMRRun(api, workers int, mixed bool, maxN int) {
 		verifReach("panic")
 	case verifKCtx:
 		early := e.ctxMode == 2 && w >= 1 && (e.ctxAt == 0 || e.rwrites[0].start < e.ctxAt)
-		late := e.ctxMode == 2 && e.ctxAt == 0 // the cancelling mapper never ran
+		late := e.ctxMode == 2 && e.ctxAt == 0 // the cancelling mapper never ran (or has not finished cancelling)
 		verifAssert(isCtx || (early || late) && plain(), "a context that is done makes the call return context.DeadlineExceeded")
 		if isCtx {
 			verifReach("ctx-done")
@@ -510,18 +533,25 @@ func verifMRRun(api, workers int, mixed bool, maxN int) {
 	}
 }
 
-// H07a / H07b: one fault kind per run.
-func Verif_C07_mapreduce() {
-	mw := verifParam("maxW")
-	c := verifCase(3 * mw)
-	api, workers := c/mw, c%mw+1
-	verifMRRun(api, workers, false, verifParam("maxN"))
+// verifMREntry fans the outermost choices out over worker processes:
+// case = (api, workers[, context mode when ctxSplit = 3][, reducer when redSplit = verifRKinds]).
+func verifMREntry(mixed bool) {
+	mw, apis, split, rsplit := verifParam("maxW"), verifParam("apis"), verifParam("ctxSplit"), verifParam("redSplit")
+	c := verifCase(apis * mw * split * rsplit)
+	rbeh := -1
+	if rsplit == verifRKinds {
+		rbeh = c % rsplit
+	}
+	c /= rsplit
+	api, workers, ctxMode := c/(mw*split), c/split%mw+1, -1
+	if split == 3 {
+		ctxMode = c % 3
+	}
+	verifMRRun(api, workers, mixed, ctxMode, rbeh)
 }
 
+// H07a / H07b: one fault kind per run.
+func Verif_C07_mapreduce() { verifMREntry(false) }
+
 // H07c: a panic together with a cancel, a done context or an early result.
-func Verif_C07_mixed() {
-	mw := verifParam("maxW")
-	c := verifCase(3 * mw)
-	api, workers := c/mw, c%mw+1
-	verifMRRun(api, workers, true, verifParam("maxN"))
-}
+func Verif_C07_mixed() { verifMREntry(true) }
